@@ -193,11 +193,13 @@ def make_inputs(rng, n: int) -> list:
 
 # ------------------------------------------------------------------ child control
 
-def run_child(inputs: list, workdir: str, tag: str, timeout: float, cpu_limit: int | None = None):
+def run_child(inputs: list, workdir: str, tag: str, timeout: float, cpu_limit: int | None = None,
+              per_input_timeout: float = 20):
     batch = os.path.join(workdir, f"batch-{tag}.json")
     journal = os.path.join(workdir, f"journal-{tag}.jsonl")
     with open(batch, "w") as f:
-        json.dump({"inputs": inputs, "rlimit_as": AS_LIMIT, "rlimit_cpu": cpu_limit}, f)
+        json.dump({"inputs": inputs, "rlimit_as": AS_LIMIT, "rlimit_cpu": cpu_limit,
+                   "per_input_timeout": per_input_timeout}, f)
     if os.path.exists(journal):
         os.remove(journal)
     e = dict(os.environ, PYTHONPATH=env.VERIF_DIR, PYTHONDONTWRITEBYTECODE="1", RV_NO_COVERAGE="1")
@@ -247,7 +249,8 @@ def confirm_alone(item: dict, entry: str, workdir: str):
     """Re-run one (input, entry) alone with a 10x CPU budget. -> ('hang'|'killed'|clause|None, detail)"""
     one = dict(item, entries=[entry])
     cpu = int(10 * budgets(item["len"])["cpu"]) + 5
-    rc, err, timed_out, recs = run_child([one], workdir, "confirm", timeout=cpu * 2 + 30, cpu_limit=cpu)
+    rc, err, timed_out, recs = run_child([one], workdir, "confirm", timeout=cpu * 2 + 30, cpu_limit=cpu,
+                                         per_input_timeout=cpu * 2 + 20)
     end = next((r for r in recs if r["ev"] == "end"), None)
     if end is None:
         if timed_out or (rc is not None and rc < 0 and -rc in (24, 9)):     # SIGXCPU / killed by the CPU limit
@@ -271,9 +274,13 @@ def run_shard(ctx):
             inputs = make_inputs(rng, 60 if ctx.tier == "quick" else 150)
             pending = list(inputs)
             guard = 0
-            while pending and guard < 6:
+            while pending and guard < 40 and not ctx.out_of_time():
                 guard += 1
-                rc, err, timed_out, recs = run_child(pending, workdir, f"{ctx.shard}", timeout=90 + 1.0 * len(pending))
+                # once a hang is confirmed in this shard the per-input watchdog is tightened so that further
+                # hanging inputs cost seconds, not the whole budget
+                hangs = ctx.observed.get("confirmed-hangs", 0)
+                rc, err, timed_out, recs = run_child(pending, workdir, f"{ctx.shard}", timeout=120 + 1.0 * len(pending),
+                                                     per_input_timeout=20 if not hangs else 4)
                 by_i = {it["i"]: it for it in pending}
                 started = None
                 finished = set()
@@ -323,13 +330,20 @@ def run_shard(ctx):
                     ctx.inconc(f"child ended abnormally (rc={rc}, timeout={timed_out}) outside any input: {err[-200:]}")
                     break
                 it = by_i[culprit[0]]
-                c2, d2 = confirm_alone(it, culprit[1], workdir)
+                if ctx.observed.get("confirmed-hangs", 0) >= 2:
+                    # the verdict is already established; further suspects are only counted
+                    ctx.observe("further-suspects-not-re-run")
+                    c2, d2 = None, "not re-run"
+                else:
+                    c2, d2 = confirm_alone(it, culprit[1], workdir)
+                if c2 == "hang":
+                    ctx.observe("confirmed-hangs")
                 if c2 is not None:
                     ctx.violation({"clause": c2, "entry": culprit[1], "input_class": it["class"], "name": it["name"],
                                    "hex": it["hex"] if it["len"] <= 4096 else it["hex"][:8192], "len": it["len"], "source": it["source"],
                                    "summary": f"{it['name']} input, {culprit[1]}: {d2}; batch child rc={rc} timeout={timed_out}; "
                                               f"stderr: {err[-300:]}"})
-                else:
+                elif d2 != "not re-run":
                     ctx.observe("batch-interrupted-but-input-fine-alone")
                 # continue with what the child had not reached yet
                 rest = []
